@@ -257,8 +257,8 @@ macro_rules! proofs {
 // @harness c04_selfmorph_n3d2 tier=quick unwind=5 block=64 mem=8 timeout=1200
 // @harness c04_selfmorph_n4d2 tier=quick unwind=6 block=64 mem=8 timeout=1800
 // @harness c04_selfmorph_n2d3 tier=thorough unwind=5 block=64 mem=12 timeout=1800
-// @harness c04_selfmorph_n3d3 tier=thorough unwind=5 block=64 mem=16 timeout=3600
-// @harness c04_selfmorph_n4d3 tier=thorough unwind=6 block=64 mem=24 timeout=3600 stretch
+// @harness c04_selfmorph_n3d3 tier=quick unwind=5 block=64 mem=8 timeout=1200
+// @harness c04_selfmorph_n4d3 tier=quick unwind=6 block=64 mem=8 timeout=1800
 // @harness c04_selfmorph_n5d2 tier=thorough unwind=7 block=64 mem=24 timeout=3600 stretch
 // @harness c04_morph_n1m1d2 tier=quick unwind=4 block=64 mem=8 timeout=1200
 // @harness c04_morph_n1m1d2_reach tier=quick unwind=4 block=64 mem=8 timeout=1200 twin
@@ -269,7 +269,7 @@ macro_rules! proofs {
 // @harness c04_morph_n3m3d2 tier=thorough unwind=5 block=64 mem=16 timeout=3600
 // @harness c04_autos_n2d2 tier=quick unwind=4 block=128 small=64 mem=8 timeout=1200
 // @harness c04_autos_n2d2_reach tier=quick unwind=4 block=128 small=64 mem=8 timeout=1200 twin
-// @harness c04_autos_n3d2 tier=thorough unwind=5 block=128 small=64 mem=16 timeout=3600
+// @harness c04_autos_n3d2 tier=quick unwind=5 block=128 small=64 mem=12 timeout=1800
 // @harness c04_autos_n4d2 tier=thorough unwind=6 block=128 small=64 mem=32 timeout=3600 stretch
 proofs! {
     c04_selfmorph_n2d2 => self_morphism_body::<2, 3>(false);
